@@ -363,6 +363,41 @@ def light_sweep(c, n):
     use("ct")
 
 
+def der_edges(c):
+    """"Signature objects survive serialise/parse unchanged" and "strict DER" at the length edges of r and s: a signature
+    object is built from a chosen (r, s) pair (every byte length 1..32, top bit of the leading byte set and clear - the
+    cases that need / must not have the 0x00 pad), serialised, compared with the BIP66 encoder and parsed back. Signing
+    reaches short components only with probability 2^-8 per missing byte, so the sweep cannot be relied on for them."""
+    rng = c.rng
+    vals = []
+    for nb in range(1, 33):
+        hi = 8 * nb
+        vals += [1 << (hi - 1), (1 << (hi - 1)) - 1 if nb > 1 or True else 1, (1 << hi) - 1, (1 << (hi - 1)) | rng.getrandbits(hi - 1),
+                 (1 << (hi - 2)) | rng.getrandbits(max(hi - 2, 1)) if hi >= 2 else 1]
+    vals = sorted({v for v in vals if 0 < v < N})
+    pairs = [(v, rng.choice(vals)) for v in vals] + [(rng.choice(vals), v) for v in vals]
+    for (r, s_) in pairs:
+        if s_ > N // 2:
+            s_ = N - s_          # low-S, as every signature embit produces
+        if not (0 < s_ < N):
+            continue
+        for backend in ("py", "ct"):
+            use(backend)
+            info = {"r": hex(r), "s": hex(s_), "backend": backend, "op": "der.edges"}
+            c.count(("der.edge", backend, r, s_), nontrivial=True)
+            c.tally("der-edge:rlen%d/slen%d" % ((r.bit_length() + 7) // 8, (s_.bit_length() + 7) // 8))
+            out = guarded(lambda: ec.Signature(ec.secp256k1.ecdsa_signature_parse_compact(be(r) + be(s_))).serialize())
+            if out in ("none", "timeout"):
+                c.fail("a signature object with valid (r, s) cannot be serialised (%s)" % out, info)
+                continue
+            c.expect("der.spec %d %d" % (r, s_), "ok " + hx(out), dict(info, tie="BIP66 encoder"), proven=True, op="der.spec")
+            back = guarded(lambda: rs_of(ec.Signature.parse(out)._sig))
+            if back != (r, s_):
+                c.fail("a signature does not survive serialise / parse", dict(info, der=hx(out), back=str(back)))
+    c.flush()
+    use("ct")
+
+
 def explore(c, nkeys, nfull, nschnorr):
     odd = odd_y_keys()
     rng = c.rng
@@ -411,6 +446,7 @@ def run(tier, seed):
                      "hypothesis of ecdsa_correct / schnorr_correct"]
     c.build_and_audit()
     corpus(c)
+    der_edges(c)
     if tier == "quick":
         explore(c, nkeys=6, nfull=2, nschnorr=4)
         light_sweep(c, 250)
